@@ -11,8 +11,13 @@ for d in sorted(glob.glob('/verif/seeded/*/')):
         for l in r.get('lines', []):
             if l.strip().startswith('VIOLATION'):
                 clauses.append(l.split('replays/')[-1].split('-')[1].replace('_', '.', 1) if 'replays/' in l else l)
+    status = ','.join(det) or 'MISSED'
+    if not det and c.get('demo_rc_with_change') == 0:
+        status = 'NOT A VIOLATION ANY MORE (demo passes with the change)'
+    if m.get('note'):
+        status += ' - ' + m['note']
     rows.append((os.path.basename(d.rstrip('/')), m.get('property', ''), c.get('tests', ''), c.get('demo_rc_with_change'),
-                 c.get('demo_rc_on_repo'), ','.join(det) or 'MISSED', '; '.join(sorted(set(clauses)))[:120],
+                 c.get('demo_rc_on_repo'), status, '; '.join(sorted(set(clauses)))[:120],
                  str(m.get('what_it_needs_to_manifest', ''))[:160].replace('\n', ' ').replace('|', '/')))
 with open('/verif/seeded/INDEX.md', 'w') as f:
     f.write('# Seeded changes\n\nEach directory holds `patch.diff` (apply with `git -C <tree> apply`), `demo.py` (exit 0 on the '
@@ -21,4 +26,4 @@ with open('/verif/seeded/INDEX.md', 'w') as f:
             '| id | property | repo tests with change | demo rc (changed / unchanged) | caught by | first failing clauses | needs |\n|---|---|---|---|---|---|---|\n')
     for r in rows:
         f.write(f'| {r[0]} | {r[1]} | {r[2]} | {r[3]} / {r[4]} | {r[5]} | {r[6]} | {r[7]} |\n')
-print(len(rows), 'entries;', sum(1 for r in rows if r[5] == 'MISSED'), 'missed')
+print(len(rows), 'entries;', sum(1 for r in rows if r[5].startswith('MISSED')), 'missed')
